@@ -14,7 +14,8 @@ EXPLANATION = (
     "returns Err (the unwrap is dominated by the validity test; nothing is substituted); (R5) recovery guards: "
     "distinct-x set insertion guards the interpolation vector, refusal iff fewer than threshold distinct points or "
     "none, unequal y-lengths are refused, interpolation receives the first `threshold` stored shares and refuses an "
-    "empty list.  NOT decided: agreement of values with an independent big-integer implementation, correctness of "
+    "empty list; (R6) the bytes interpolate returns are, element by element, the complete to_repr encoding of the interpolated "
+    "value, and Vec<u8>::from(Fp) is the complete to_repr of its argument.  NOT decided: agreement of values with an independent big-integer implementation, correctness of "
     "Lagrange interpolation (both are numeric relations over runtime values).")
 ASSUMPTIONS = ["ff-derived field operations implement field arithmetic (C07)"]
 TRUSTED = []
@@ -145,3 +146,28 @@ def run(ctx):
     ne = any(f[0].op == "eq" and f[1:] == ("eq", 0) and Q.contains(f[0], lambda t: t.op == "len" and Q.path_of(t.args[0]) == "shares") for f in f3)
     ctx.add("C06.R5", "star_sharks::share_ff::interpolate#empty-refused", ne, "interpolate must refuse an empty share list", ctx.fn("star_sharks::share_ff::interpolate").loc)
     ctx.floor("C06.R5", 8)
+
+    # ---- R6 the recovered bytes are the complete canonical encodings of the interpolated elements ------------------
+    from .common import complete_repr
+    okv = Q.variant(ret3, 0)
+    body = None
+    if okv is not None and okv[2] and okv[2][0].op == "fold":
+        init, app = okv[2][0].args[0], okv[2][0].args[1]
+        if init.op == "vec_new" and app.op == "append" and app.args[0].op == "acc":
+            el = app.args[1]
+            src = el.args[0] if el.op == "elem" else None
+            while src is not None and src.op in ("collected", "iter", "refv"):
+                src = src.args[0]
+            if src is not None and src.op == "mapped":
+                body = src.args[1]
+    el6 = complete_repr(body) if body is not None else None
+    ctx.add("C06.R6", "star_sharks::share_ff::interpolate#output-is-complete-repr-of-each-element", el6 is not None and el6.op == "fold",
+            "the secret bytes returned must be, element by element, the complete 24-byte canonical encoding of the interpolated "
+            "value (a truncated or padded partial copy alters elements >= 2^128); per-element bytes: %s" % S(body, 4),
+            ctx.fn("star_sharks::share_ff::interpolate").loc, sample=S(body, 3))
+    wroot = "star_sharks::share_ff::<impl std::convert::From<share_ff::Fp> for std::vec::Vec<u8>>::from"
+    e6, r6, _, _ = ctx.root(wroot)
+    src6 = complete_repr(r6) if r6 is not None else None
+    ctx.add("C06.R6", "star_sharks::share_ff::From<Fp>-for-Vec<u8>#complete-repr", src6 is not None and Q.path_of(src6) == "s",
+            "Vec<u8>::from(Fp) must return the complete canonical encoding of its argument; found %s" % S(r6, 4), ctx.fn(wroot).loc)
+    ctx.floor("C06.R6", 2)
